@@ -9,8 +9,8 @@ META = dict(
               'destination sets and every topology, the real parsec_remote_dep_activate / parsec_remote_dep_propagate / gather callback / '
               'child predicates / rank<->bit mapping (remote_dep.c compiled into the harness) are driven over N virtual ranks with a '
               'stubbed send path until quiescence; deliveries are counted per (rank, output)',
-    level_text='For all roots, all families of non-empty destination sets of 1..3 outputs over N virtual ranks (quick: N<=6 for 1-2 outputs, '
-               'N<=4 for 3; thorough: N<=9 / 7, plus all sets of bounded size across the 32-rank bank boundary) and the three topologies '
+    level_text='For all roots, all families of non-empty destination sets of 1..3 outputs over N virtual ranks (quick: N<=7 for 1-2 outputs, '
+               'N<=5 for 3; thorough: N<=16 / 10 / 7 for 1 / 2 / 3 outputs, plus all sets of bounded size across the 32- and 64-rank bank boundaries) and the three topologies '
                'selected through the real MCA parameter, the messages emitted by the real activation/propagation code are delivered until '
                'quiescence and every (rank, output) pair is checked to be delivered exactly once, nothing outside the sets. The chain '
                'topology with several outputs whose sets differ FAILS on the unchanged tree (known finding '
@@ -58,19 +58,40 @@ def check(ctx):
     known = known_topologies()
     exe = build(ctx)
     if quick:
-        plan = '1:2-6,2:2-6,3:2-4,2:2-5:1,2:2-5:2'
-        deadline = 60
+        # nout:Nmin-Nmax[:variant[:max set size]] ; all sets unless a size cap is given
+        plan = '1:2-7,2:2-7,3:2-5,2:2-5:1,2:2-5:2,1:31-33:0:2,2:33-33:0:1'
+        deadline = 50
     else:
-        # all sets: 1 output N<=14, 2 outputs N<=9, 3 outputs N<=6; variants; bounded set sizes across the 32-bit bank boundary
-        plan = ('1:2-8,2:2-8,3:2-5,1:9-14,2:9-9,3:6-6,2:2-7:1,2:2-7:2,3:2-5:3,'
-                '1:31-34:0:3,1:63-66:0:2,2:32-34:0:1,2:33-33:0:2,3:33-33:0:1')
-        deadline = 330
-    for topo in (0, 1, 2):
+        # all sets: 1 output N<=16, 2 outputs N<=10, 3 outputs N<=7; iterator variants; bounded set sizes across the 32/64-rank bank
+        # boundaries of rank_bits; then stretch bounds that the deadline may cut (reported exhaustive:false)
+        plan = ('1:2-16,2:2-10,3:2-7,2:2-8:1,2:2-8:2,3:2-5:3,1:2-10:3,'
+                '1:31-34:0:3,1:63-66:0:2,2:32-34:0:1,3:33-33:0:1,2:33-33:0:2,'
+                '1:17-18,3:8-8,2:11-11')
+        deadline = 600
+
+    def one(topo):
         ctx.run_engine(exe, ['--topo', str(topo), '--plan', plan, '--known-topos', str(known), '--outdir', '/verif/out',
                              '--deadline', str(deadline)], label='coll-%s' % ('star', 'chain', 'binomial')[topo], timeout=deadline + 300)
+    if quick:
+        for topo in (0, 1, 2):
+            one(topo)
+    else:                                   # the three topologies are independent processes
+        from concurrent.futures import ThreadPoolExecutor
+        with ThreadPoolExecutor(max_workers=3) as ex:
+            list(ex.map(one, (0, 1, 2)))
+        ctx.legs.sort(key=lambda l: (l.get('leg', ''), l.get('outputs', 0), l.get('variant', 0), l.get('max_set_size', 0), l.get('N', 0)))
     for t, fid in FINDINGS.items():
         ctx.notes.append('known_findings entry for topology %s (%s): %s' % (('star', 'chain', 'binomial')[t], fid,
                          'present' if known >> t & 1 else 'ABSENT - every failing case under this topology is a violation'))
+    # per topology and N: cases / failing but fully attributed to a recorded finding / failing and NOT attributable (must be 0)
+    table = {}
+    for l in ctx.legs:
+        if 'topology' in l:
+            t = table.setdefault('%s/N=%d' % (l['topology'], l['N']), dict(cases=0, failing_attributed=0, failing_unattributable=0))
+            t['cases'] += l['cases']
+            t['failing_attributed'] += l['failing_attributed_to_known_finding']
+            t['failing_unattributable'] += l['failing_unattributable']
+    ctx.notes.append({'per_topology_N': table})
     if not quick and not ctx.violations and not ctx.broken:
         sys.path.insert(0, HERE)
         import mp_repro
